@@ -15,8 +15,8 @@ def run(ctx, replay):
     args = ["listobs", "-out", out, "-seed", ctx.seed, "-shards", 16]
     if replay:
         raise Inconclusive("replay: the failing grammar is in case.json; run `harness listobs` on it (not automated)")
-    args += ["-corpus", conf.CORPUS, "-nrand", ctx.pick(200, 2500), "-nexpr", ctx.pick(40, 400), "-nfeat", ctx.pick(60, 600),
-             "-ndp", ctx.pick(40, 400), "-nctx", ctx.pick(40, 400), "-small-max", 3, "-small-slices", ctx.pick(40, 4), "-small-slice", ctx.seed % ctx.pick(40, 4)]
+    args += ["-corpus", conf.CORPUS, "-nrand", ctx.pick(200, 12000), "-nexpr", ctx.pick(40, 2000), "-nfeat", ctx.pick(60, 3000), "-nlong", ctx.pick(12, 400),
+             "-ndp", ctx.pick(40, 2000), "-nctx", ctx.pick(40, 2000), "-small-max", 3, "-small-slices", ctx.pick(40, 4), "-small-slice", ctx.seed % ctx.pick(40, 4)]
     r = ctx.vh(args, timeout=3300)
     log(r.stdout.strip().splitlines()[-1])
     shards = [s for s in sorted(glob.glob(os.path.join(out, "lobs-*.json")))]
